@@ -124,16 +124,28 @@ def rule_once(ctx, f, imp):
             fl.origins(arg_local(t, 0), fields=fs)
             if "map" not in fs:
                 continue
-            sw = b["blocks"][t["target"]]["term"]
-            if sw["k"] != "switch":
+            # the test of the look-up's outcome: directly (`if let Some(..) = map.get(..)`) or after `.copied()` / `.cloned()`
+            swb = None
+            for i2, bb2 in enumerate(b["blocks"]):
+                t2 = bb2["term"]
+                if t2["k"] != "switch" or not cfg.dominates(bi, i2):
+                    continue
+                dl = F.op_local(t2["discr"])
+                for s2 in bb2["stmts"]:
+                    if s2[0] == "assign" and s2[1] == [dl] and s2[2][0] == "discr" and "Option<" in b["locals"][s2[2][1][0]]["s"] and \
+                            any(a[0] == "call" and a[2] == bi for a in fl.origins(s2[2][1][0], passthrough=("copied", "cloned"))):
+                        if swb is None or cfg.dominates(i2, swb):
+                            swb = i2
+            if swb is None:
                 continue
+            sw = b["blocks"][swb]["term"]
             n += 1
             arms = {a[0]: a[1] for a in sw["arms"]}
             hit = arms.get(1, sw["otherwise"])
             miss = arms.get(0, sw["otherwise"])
             if hit == miss:
                 continue
-            reach = cfg.reachable_from(hit, avoid={t["target"]}) | {hit}
+            reach = cfg.reachable_from(hit, avoid={swb}) | {hit}
             again = [m for m, mt in makes if m in reach]
             ctx.check(not again, "C20-ONCE", "%s#memo-hit" % b["id"], "an object found in the memo can still reach create / promise: an object copied once (for example through "
                       "an untyped reference) and met again is copied a second time, and what was shared in the source is no longer shared in the target", t["span"],
